@@ -701,6 +701,69 @@ def _cached_ast_ownership(ctx, model, m):
            "strips the extra arguments from inherited methods")
 
 
+def _temporaries_hygienic(ctx, model, m, inliner_fn):
+    """The inlined code assigns temporaries (by :=) in the scope of the method
+    it is inlined into.  Their names must not be names that mapper methods of
+    this package bind themselves -- those methods are exactly what gets
+    rewritten (a subclass of a stock mapper inherits them): a captured local
+    is silently overwritten by every inlined rec call."""
+    consts = {}
+    for st in m.tree.body:
+        if isinstance(st, ast.Assign) and len(st.targets) == 1 and \
+                isinstance(st.targets[0], ast.Name) and \
+                isinstance(st.value, ast.Constant) and \
+                isinstance(st.value.value, str):
+            consts[st.targets[0].id] = st.value.value
+
+    def text(e):
+        if isinstance(e, ast.Constant) and isinstance(e.value, str):
+            return e.value
+        if isinstance(e, ast.Name) and e.id in consts:
+            return consts[e.id]
+        if isinstance(e, ast.BinOp) and isinstance(e.op, ast.Add):
+            a, b = text(e.left), text(e.right)
+            return None if a is None or b is None else a + b
+        return None
+    temps = {}
+    for c in ast.walk(inliner_fn):
+        if isinstance(c, ast.Call) and isinstance(c.func, ast.Name) and \
+                c.func.id == "expr_assign" and c.args:
+            t = text(c.args[0])
+            if t is None:
+                raise AnalysisError("_RecInliner: name of a generated temporary "
+                                    "is not a constant string")
+            temps[t] = c
+    if len(temps) < 2:
+        raise AnalysisError("_RecInliner: generated temporaries not found")
+    mapper_base = model.cls(f"{M}:Mapper")
+    users = {}
+    n_methods = 0
+    for c in model.classes.values():
+        if not model.is_subclass(c, mapper_base):
+            continue
+        for name, mem in c.members.items():
+            if mem.kind != "func" or not (name.startswith("map_") or name in (
+                    "__call__", "rec", "rec_fallback")):
+                continue
+            n_methods += 1
+            for n_ in ast.walk(mem.node):
+                if isinstance(n_, ast.Name) and isinstance(n_.ctx, ast.Store) \
+                        and n_.id in temps:
+                    users.setdefault(n_.id, f"{c.name}.{name}")
+    ctx.floor("mapper methods scanned for local names", n_methods, 300)
+    ctx.ob("T/optimizer/temporaries-cannot-capture-locals", not users,
+           m.loc(inliner_fn),
+           f"generated temporaries {sorted(temps)} are no local of any mapper "
+           "method" if not users else
+           "the inlined look-aside/dispatch assigns the temporaries "
+           f"{sorted(users)} in the rewritten method's own scope, and "
+           + ", ".join(f"{v} binds '{k}' itself" for k, v in sorted(users.items()))
+           + ": every inlined self.rec(...) overwrites that local (an "
+           "inherited map_numpy_array then stores into the cached value "
+           "instead of its result array; a handler holding 'result' across a "
+           "rec call returns the cache sentinel)")
+
+
 def _optimizer(ctx, model):
     m = model.repo.module(OPT)
     _cached_ast_ownership(ctx, model, m)
@@ -768,6 +831,70 @@ def _optimizer(ctx, model):
            if ok else
            "the rewritten signatures do not drop *args/**kwargs under the same "
            f"flags as the call sites ({sig_ok})")
+
+    # (b') a parameter removed from a signature must not stay behind as a name
+    # in the body: the default get_cache_key builds its key from args/kwargs,
+    # so dropping them from the signature alone makes every call a NameError.
+    # The rewriter turns loads of the dropped names into the empty tuple /
+    # mapping they would have held.
+    vn = var.members.get("visit_Name")
+    body_ok = {"drop_args": False, "drop_kwargs": False}
+    if vn is not None and vn.kind == "func":
+        for ps in summarize(vn.node, node_param=False):
+            if ps.term != "return" or not isinstance(ps.retval, tuple):
+                continue
+            rv = ps.retval
+            kind = "drop_args" if rv[0] == "call" and rv[1] == "ast.Tuple" else \
+                "drop_kwargs" if rv[0] == "call" and rv[1] == "ast.Dict" else None
+            if kind is None:
+                continue
+            from ..summary import facts_of
+            facts = [f for _, pol0, v0 in ps.conds if isinstance(v0, tuple)
+                     for f in facts_of(v0, pol0)]
+            flag_on = any(v == ("self", kind) and pol for v, pol in facts)
+            name_par = "vararg_name" if kind == "drop_args" else "kwarg_name"
+            name_ok = any(
+                pol and v[0] == "compare" and v[1] == ("Eq",)
+                and {v[2], v[3][0]} == {("attr", ("param", vn.node.args.args[1].arg),
+                                         "id"), ("self", name_par)}
+                for v, pol in facts)
+            empty = not [k for k in rv[3] if k[0] in ("elts", "keys", "values")
+                         and k[1] not in (("lit", "list", ()),)]
+            if flag_on and name_ok and empty:
+                body_ok[kind] = True
+    names_passed = False
+    for c in ast.walk(opt):
+        if isinstance(c, ast.Call) and U(c.func) == "_VarArgsRemover":
+            kws = {k.arg: U(k.value) for k in c.keywords}
+            names_passed = kws.get("vararg_name") == "vararg_name" and \
+                kws.get("kwarg_name") == "kwarg_name"
+    taken = {st.targets[0].id: U(st.value) for st in ast.walk(opt)
+             if isinstance(st, ast.Assign) and len(st.targets) == 1
+             and isinstance(st.targets[0], ast.Name)
+             and st.targets[0].id in ("vararg_name", "kwarg_name")}
+    names_read = "mdef.args.vararg.arg" in taken.get("vararg_name", "") and \
+        "mdef.args.kwarg.arg" in taken.get("kwarg_name", "")
+    ok = all(body_ok.values()) and names_passed and names_read
+    if not ok:
+        # definite only if nothing in the module looks at Name nodes or at the
+        # names of the dropped parameters; any other mechanism is unread
+        handles_names = any(
+            isinstance(f, ast.FunctionDef) and f.name == "visit_Name"
+            for f in ast.walk(m.tree)) or any(
+            isinstance(a, ast.Attribute) and a.attr == "arg"
+            and isinstance(a.value, ast.Attribute)
+            and a.value.attr in ("vararg", "kwarg") for a in ast.walk(m.tree))
+        if handles_names:
+            raise AnalysisError("optimize_mapper: how the names of dropped "
+                                "*args/**kwargs parameters are removed from "
+                                "method bodies is not understood")
+    ctx.ob("T/optimizer/dropped-parameters-rewritten-in-bodies", ok, m.loc(opt),
+           "loads of a dropped *args / **kwargs name become () / {}" if ok else
+           "optimize_mapper drops *args/**kwargs from signatures but leaves the "
+           "names in the method bodies: with the default get_cache_key "
+           "((type(expr), expr, args, immutabledict(kwargs))) every call of a "
+           "rewritten CachedMapper ends in NameError: name 'args' is not "
+           "defined -- for every option set with drop_args or drop_kwargs")
 
     def passes_flags(cls_name, flags):
         """the transformer is constructed with every flag passed under its own
@@ -847,9 +974,28 @@ def _optimizer(ctx, model):
            "recomputes shared subexpressions "
            f"(e.g. options {unguardedB[0]})", {"unguarded": unguardedB[:4]})
     # the inlined look-aside itself
-    isrc = ast.unparse(rv.node).replace(" ", "").replace("\n", "")
-    ok = "_set_and_return" in isrc and "Name(id='cache_key',ctx=Load())" in isrc \
-        and "expr_assign('cache_key',cache_key_expr)" in isrc
+    # (the generated code assigns the key to a temporary -- expr_assign(<name>,
+    # cache_key_expr) -- and the store helper is handed Name(id=<the same name>))
+    key_names = [c.args[0] for c in ast.walk(rv.node) if isinstance(c, ast.Call)
+                 and isinstance(c.func, ast.Name) and c.func.id == "expr_assign"
+                 and len(c.args) == 2 and ast.unparse(c.args[1]) == "cache_key_expr"]
+    stores = []
+    for c in ast.walk(rv.node):
+        if isinstance(c, ast.Call) and isinstance(c.func, ast.Name) and \
+                c.func.id == "Call":
+            kw = {k.arg: k.value for k in c.keywords}
+            f_ = kw.get("func")
+            if f_ is not None and "_set_and_return" in ast.unparse(f_) and \
+                    isinstance(kw.get("args"), ast.List) and \
+                    len(kw["args"].elts) == 3:
+                stores.append(kw["args"].elts[1])
+    ok = len(key_names) == 1 and len(stores) == 1
+    if ok:
+        st = stores[0]
+        idv = next((k.value for k in st.keywords if k.arg == "id"), None) \
+            if isinstance(st, ast.Call) else None
+        ok = idv is not None and ast.dump(idv) == ast.dump(key_names[0])
+    _temporaries_hygienic(ctx, model, m, rv.node)
     ctx.ob("P/optimizer/inlined-lookaside/same-key", ok, m.loc(rv.node),
            "inlined lookup and store use one cache_key" if ok else
            "the inlined look-aside does not store under the key it looked up")
